@@ -191,11 +191,16 @@ class Collector:
         self.fallbacks: set[str] = set()
         self.entered: set[str] = set()
 
-    def run(self, tree: ANode, prefix: Any, internal: Any, importer: Any) -> list[Run]:
+    def run(self, tree: ANode, prefix: Any, internal: Any, importer: Any, warm: tuple | None = None) -> list[Run]:
+        """`warm` = (tree, prefix, internal, importer) of a call of convert() made first on the same converter object (its result is
+        thrown away): whatever the first call leaves behind - on the object, its class, the module - must not leak into the second."""
         repo = self.repo
 
         def entry(it):
             conv = it.instantiate(self.conv_cls, [], {}, None, None)
+            if warm is not None:
+                w = it.instantiate(self.named, [warm[0], warm[3]], {}, None, None)
+                it.call(it.getattr_value(conv, "convert"), [[w], warm[1], warm[2]], {})
             nm = it.instantiate(self.named, [tree, importer], {}, None, None)
             res = it.call(it.getattr_value(conv, "convert"), [[nm], prefix, internal], {})
             kind, items = it.iterate(res, self.entry.node, None) if res is not None else ("concrete", [])
@@ -392,8 +397,10 @@ def run_conv_samples(repo: Repo, gram: dict) -> tuple[str, str]:
             continue
         leaf = import_leaf(gram, cls, names, module=module, level=level, symbolic=False)
         tree = node(gram, "Module", body=[filler(gram, 1), node(gram, "If", test=node(gram, "Name", id="x"), body=[filler(gram, 0)], orelse=[leaf])])
+        # an earlier call of the same converter with another prefix and another set of internal modules must leave nothing behind
+        decoy = node(gram, "Module", body=[import_leaf(gram, "ImportFrom" if "ImportFrom" in gram else cls, ["pkg"], module="root", level=0, symbolic=False)])
         try:
-            runs = col.run(tree, "zz", set(CONV_INTERNAL), CONV_IMPORTER)
+            runs = col.run(tree, "zz", set(CONV_INTERNAL), CONV_IMPORTER, warm=(decoy, "decoy", {"decoy", "decoy.root"}, "decoy.first"))
         except Unsupported as u:
             return "undecided", u.msg
         if len(runs) != 1 or runs[0].outcome != "return" or col.fallbacks:
@@ -403,7 +410,7 @@ def run_conv_samples(repo: Repo, gram: dict) -> tuple[str, str]:
             return "undecided", "records with symbolic names on constant input"
         form = f"import {', '.join(names)}" if cls == "Import" else f"from {'.' * level}{module or ''} import {', '.join(names)}"
         if sorted(got) != sorted((CONV_IMPORTER, w) for w in want):
-            return "bad", f"`{form}` in module `{CONV_IMPORTER}` (internal modules {sorted(CONV_INTERNAL)}) yields the imports {sorted(b for _a, b in got)} from {sorted({a for a, _b in got})} - the property demands {sorted(want)} from ['{CONV_IMPORTER}']"
+            return "bad", f"`{form}` in module `{CONV_IMPORTER}` (internal modules {sorted(CONV_INTERNAL)}; the converter had converted one other file with other internal modules before) yields the imports {sorted(b for _a, b in got)} from {sorted({a for a, _b in got})} - the property demands {sorted(want)} from ['{CONV_IMPORTER}']"
     return "ok", ""
 
 
@@ -801,7 +808,7 @@ def run_r5_graph(repo: Repo, res: Result) -> None:
     def entry(it):
         return it.instantiate(g, [[Sym("module", "str")], [R], Sym("level_limit", "optint")], {}, None, None)
 
-    sampled = run_r5_samples(repo)
+    sampled = run_r5_samples(repo, grammar())
     res.analysed["graph_samples"] = sampled[0]
     if sampled[0] == "bad":
         res.add("C02.R5", key + " [on constants]", False, sampled[1], sampled[2] or wh, kind="flow")
@@ -1004,7 +1011,9 @@ def run_r5_graph(repo: Repo, res: Result) -> None:
 
 # --------------------------------------------------------------------------- R5 on samples
 
-SAMPLE_MODULES = ["top", "top.pkg", "top.pkg.mod", "top.pkg.mo", "top.pkg.sub", "top.pkg.sub.deep", "top.pkgx", "top.other", "top.other.leaf", "solo"]
+SAMPLE_MODULES = ["top", "top.pkg", "top.pkg.mod", "top.pkg.mo", "top.pkg.sub", "top.pkg.sub.deep", "top.pkgx", "top.other", "top.other.leaf", "solo", "top.third", "top.third.item", "top.third.item.part"]
+# records that only the collector can make (relative imports: their importee hierarchy is that of the *relative* name): (importer, module part, names, level)
+SAMPLE_RELATIVE = [("top.pkg.mo", "third.item", ["part"], 2), ("top.pkg.sub.deep", None, ["mod"], 2)]
 SAMPLE_IMPORTS = [
     ("top.pkg.mod", "top.other.leaf"),  # across packages
     ("top.pkg.mod", "top.pkg.mo"),  # sibling whose name is a string prefix of the importer's
@@ -1023,7 +1032,7 @@ SAMPLE_IMPORTS = [
 ]
 
 
-def run_r5_samples(repo: Repo) -> tuple[str, str, str]:
+def run_r5_samples(repo: Repo, gram: dict | None = None) -> tuple[str, str, str]:
     """The graph construction interpreted on constants (nothing symbolic, the networkx graph modelled concretely), read back through
     the public API (`nodes`, `edges`, `parent_child_relationship`) and compared with what the property demands for these inputs:
     an import edge flat(importer) -> flat(importee) exactly for the imports whose ends are known, distinct nodes (imports of an own
@@ -1062,6 +1071,22 @@ def run_r5_samples(repo: Repo) -> tuple[str, str, str]:
             for r, (a, b) in zip(recs, SAMPLE_IMPORTS):
                 if it.call(it.getattr_value(r, "importer"), [], {}) != a or it.call(it.getattr_value(r, "importee"), [], {}) != b:
                     raise Unsupported(f"{rec_cls.name}({a!r}, {b!r}) does not report these as importer() / importee()")
+            pairs = list(SAMPLE_IMPORTS)
+            if gram is not None and "ImportFrom" in gram:
+                # relative import records, made by the collector itself from constant trees
+                conv = it.instantiate(repo.cls(CONVERTER, "ImportConverter"), [], {}, None, None)
+                for importer, module, names, level in SAMPLE_RELATIVE:
+                    tree = node(gram, "Module", body=[import_leaf(gram, "ImportFrom", names, module=module, level=level, symbolic=False)])
+                    nm = it.instantiate(repo.cls(IMPORT_TYPES, "NamedModule"), [tree, importer], {}, None, None)
+                    kind, made = it.iterate(it.call(it.getattr_value(conv, "convert"), [[nm], "", set(SAMPLE_MODULES)], {}), g.node, None)
+                    if kind != "concrete":
+                        raise Unsupported("convert() on a constant tree returns a collection of unknown length")
+                    for r in made:
+                        a, b = it.call(it.getattr_value(r, "importer"), [], {}), it.call(it.getattr_value(r, "importee"), [], {})
+                        if not (isinstance(a, str) and isinstance(b, str)):
+                            raise Unsupported("a record made from a constant tree reports symbolic names")
+                        recs.append(r)
+                        pairs.append((a, b))
             gobj = it.instantiate(g, [list(SAMPLE_MODULES), recs, limit], {}, None, None)
             kind, nodes = it.iterate(it.getattr_value(gobj, "nodes"), g.node, None)
             kind2, edges = it.iterate(it.getattr_value(gobj, "edges"), g.node, None)
@@ -1071,7 +1096,7 @@ def run_r5_samples(repo: Repo) -> tuple[str, str, str]:
             for e in edges:
                 u, v = e
                 out.append((u, v, it.truth(it.call(it.getattr_value(gobj, "parent_child_relationship"), [u, v], {}))))
-            return list(nodes), out
+            return list(nodes), out, pairs
 
         ex = Explorer(repo, split_calls=False, max_runs=50)
         ex.concrete_graph = True
@@ -1082,13 +1107,13 @@ def run_r5_samples(repo: Repo) -> tuple[str, str, str]:
         if len(runs) != 1 or runs[0].outcome != "return" or ex.fallbacks:
             why = f"raises {runs[0].raised}" if len(runs) == 1 and runs[0].outcome == "raise" else f"{len(runs)} paths" if len(runs) != 1 else f"uninterpreted helper {sorted(ex.fallbacks)[0]}" if ex.fallbacks else runs[0].outcome
             return "undecided", f"the graph construction on constants (level_limit={limit}) does not come out as one concrete run: {why}", ""
-        nodes, edges = runs[0].value
+        nodes, edges, sample_imports = runs[0].value
         if not all(isinstance(n, str) for n in nodes) or not all(isinstance(u, str) and isinstance(v, str) for u, v, _h in edges):
             return "undecided", "nodes of the constructed graph are not plain names", ""
         known = {flat(m) for mod in SAMPLE_MODULES for m in [*parents(mod), mod]}
         expected: set[tuple[str, str]] = set()
         lenient: set[tuple[str, str]] = set()
-        for a, b in SAMPLE_IMPORTS:
+        for a, b in sample_imports:
             u, v = flat(a), flat(b)
             if u == v or u not in known or v not in known:
                 continue
@@ -1100,11 +1125,11 @@ def run_r5_samples(repo: Repo) -> tuple[str, str, str]:
         inputs = f"all_modules={SAMPLE_MODULES}, level_limit={limit}"
         stray = [n for n in nodes if n not in known]
         if stray:
-            culprit = next((f"{a} -> {b}" for a, b in SAMPLE_IMPORTS for x in (a, b) if stray[0] == flat(x) or stray[0] in [flat(p) for p in parents(x)]), "?")
+            culprit = next((f"{a} -> {b}" for a, b in sample_imports for x in (a, b) if stray[0] == flat(x) or stray[0] in [flat(p) for p in parents(x)]), "?")
             return "bad", f"with {inputs} and the import `{culprit}` the graph has the node `{stray[0]}`, which is not a module: imported names that are not modules become nodes (and later imports of them edges)", ""
         missing = sorted(expected - got)
         if missing:
-            a, b = next((a, b) for a, b in SAMPLE_IMPORTS if (flat(a), flat(b)) == missing[0])
+            a, b = next((a, b) for a, b in sample_imports if (flat(a), flat(b)) == missing[0])
             marked = any((u, v) == missing[0] for u, v, hier in edges if hier)
             return "bad", f"with {inputs} the import `{a}` -> `{b}` yields no import edge `{missing[0][0]}` -> `{missing[0][1]}`" + (" (the edge is there, marked as a parent-child edge)" if marked else "") + ": an import between two known, distinct modules disappears from the architecture", ""
         extra = sorted(got - expected - lenient)
